@@ -7,7 +7,7 @@ invariant (`InstInv`, round ≥ 1, commit container without justification fields
 The one place where a hypothesis about TIMING enters is the justified proposal of `uponRoundChange`: the node checks the
 justification (and its own leadership) for the round of the TRIGGERING round-change, but creates the proposal with
 `Round = State.Round` and the round-changes of `State.Round`. `RcQuorumInRound` — "a round-change quorum for round r
-completes only while `State.Round = r`" — is exactly what makes the two coincide.
+never completes while `State.Round < r`" — is exactly what makes the two coincide.
 -/
 import Ssv.Proofs.EmissionBridge
 import Ssv.Proofs.QbftNodeStep
